@@ -403,6 +403,28 @@ pub fn c09_oracle(d: &Driver, damaged: &EntryKind, obs: &Obs) -> Option<(String,
             return Some(("retained-record-lost".into(), format!("queue (name {} B): retained record at position {:?} was not recovered intact although its append entry was not damaged ({} of {} recovered)", name.len(), missing, got.iter().filter(|r| must.contains(r)).count(), must.len())));
         }
     }
+    // "costs at most the one entry": the control entries that were *not* hit still take effect. A deleted queue may
+    // come back only if the hit entry is a delete of that name; records removed by a truncate or a delete may come
+    // back only if the hit entry is a truncate / delete / position entry of that queue.
+    if !matches!(damaged, EntryKind::Undecodable) {
+        for (name, oq) in &obs.queues {
+            match d.model.queues.get(name) {
+                None => {
+                    if !matches!(damaged, EntryKind::Delete { queue, .. } if queue == name) {
+                        return Some(("deleted-queue-reappeared".into(), format!("queue (name {} B, {} records) exists after open although it was deleted (or never created) and the damaged entry is not its delete entry: the damage cost more than the one entry it hit", name.len(), oq.recs.len())));
+                    }
+                }
+                Some(mq) => {
+                    let control_of_this_queue = matches!(damaged, EntryKind::Truncate { queue, .. } | EntryKind::Delete { queue, .. } | EntryKind::Position { queue, .. } if queue == name);
+                    if !control_of_this_queue {
+                        if let Some(extra) = oq.recs.iter().find(|r| mq.recs.binary_search_by_key(&r.pos, |x| x.pos).is_err()) {
+                            return Some(("removed-record-reappeared".into(), format!("queue (name {} B): record at position {} ({} B) is back after open although it had been truncated or deleted and the damaged entry is not a truncate / delete / position entry of this queue", name.len(), extra.pos, extra.len)));
+                        }
+                    }
+                }
+            }
+        }
+    }
     None
 }
 
